@@ -968,7 +968,7 @@ type C03 struct{}
 
 func (C03) ID() string { return "C03" }
 func (C03) Rule() string {
-	return "a scenario = 1-2 generated call models (cyclic, self-recursive, parallel edges, unresolved callees, receiver-less calls, creations, quoted names) and 1-2 simulated processes each executing 1-7 call / callByFiles / rcall operations in one OS process (process boundary = restart); every call/callByFiles result is judged against the reference call relation. Non-trivial = at least one judged operation whose root has callees ran on a process that had already executed another graph operation; distinct = by content hash of the scenario."
+	return "a scenario = 1-2 generated call models (random / chain / layered / concatenation-collision shapes; cyclic, self-recursive, parallel edges, unresolved and foreign callees, receiver-less calls, creations, interfaces, constructors, default package, odd, case-variant and quoted names) and 1-2 simulated processes each executing 1-7 call / callByFiles / rcall operations in one OS process (process boundary = restart; a third of the operations decode the model into the process's long-lived model variable), plus, in a quarter of the scenarios, 1-3 processes of `coca call` / `coca rcall` command lines sharing one working directory whose reports persist; every call/callByFiles result and call.dot is judged against the reference call relation. Non-trivial = at least one judged operation whose root has callees ran on a process that had already executed another graph operation; distinct = by content hash of the scenario."
 }
 func (C03) Budget(tier string) (int, time.Duration) {
 	if tier == "thorough" {
